@@ -103,7 +103,7 @@ func init() {
 			if arg == "scan" && p.want["forest"] {
 				o.Forest = projectForest(c.VerifDirectives(), p.base)
 			}
-			if arg == "compileCore" && p.want["pastes"] {
+			if arg == "paste" && p.want["pastes"] {
 				o.Pastes = projectForest(c.VerifDirectivesWithPastes(), p.base)
 			}
 		default:
